@@ -434,6 +434,32 @@ def make_engine(index, schema_mod, contract=None):
     return eng
 
 
+# ---- selectors for `aliases`: the current name of a function local, found by its role
+def returned_local(fn):
+    """the name the function returns with its last statement (`return <name>`)"""
+    last = fn.body[-1] if fn.body else None
+    if isinstance(last, ast.Return) and isinstance(last.value, ast.Name):
+        return last.value.id
+    return None
+
+
+def accumulator(fn):
+    """the one name the function aug-assigns (`x += ...`, `x |= ...`)"""
+    names = {n.target.id for n in ast.walk(fn) if isinstance(n, ast.AugAssign) and isinstance(n.target, ast.Name)}
+    return names.pop() if len(names) == 1 else None
+
+
+def first_assigned_constant(value):
+    """the first top-level local initialised with the given constant (`x = ''`)"""
+    def sel(fn):
+        for s in fn.body:
+            if isinstance(s, ast.Assign) and len(s.targets) == 1 and isinstance(s.targets[0], ast.Name) \
+                    and isinstance(s.value, ast.Constant) and s.value.value == value and type(s.value.value) is type(value):
+                return s.targets[0].id
+        return None
+    return sel
+
+
 def _resolve_aliases(contract, fs):
     """Rewrite the names of function locals used by the specification to the names the current source gives them."""
     if not contract.aliases:
